@@ -187,6 +187,8 @@ theorem Sh_link_requests : Gen.M.requests.all (requestCovered Gen.M Gen.env Gen.
 theorem Sh_link_notifications : Gen.M.notifications.all (notificationCovered Gen.M Gen.env Gen.bad) = true := by decide +kernel
 /-- … and so does every response class, except those whose `result` annotation is excluded for an open known finding — exactly those -/
 theorem Sh_link_responses : Gen.M.requests.all (fun r => responseCovered Gen.M Gen.env Gen.bad r != Gen.excludedResponses.contains r.method) = true := by decide +kernel
+/-- every type alias of the metamodel is exported by the package as an alias object whose annotation covers it and lies inside the checked universe -/
+theorem Sh_link_aliases : Gen.M.aliases.all (aliasCovered Gen.M Gen.env Gen.bad Gen.progTys) = true := by decide +kernel
 /-- the two range validators (bodies translated from validators.py on this run) accept their range -/
 theorem Sh_link_int32 (i : Int) (h : inInt32 i = true) : (Gen.env.vld.int32 (.int i)).accepted = true := by
   simp only [inInt32, Bool.and_eq_true, decide_eq_true_eq] at h
@@ -291,6 +293,13 @@ theorem {pid}_metamodel_structures (s : Struct) (hs : s ∈ Gen.M.structures) (j
 theorem {pid}_metamodel_requests (r : Request) (hr : r ∈ Gen.M.requests) (j : Json) (hv : validRequestC Gen.M r j = true) (hw : Wf j) :
     ∃ e, entryOf Gen.env r.method = some e ∧ RoundTrips Gen.env Gen.bad (.cls e.req) j :=
   {pid}_checked.roundtrip_request (List.all_eq_true.mp Sh_link_requests r hr) hv hw
+/-- every type alias as a root type -/
+theorem {pid}_metamodel_aliases (a : Alias) (ha : a ∈ Gen.M.aliases) (m : Nat) (j : Json) (hv : validTyC Gen.M m (.ref a.name) j = true) (hw : Wf j) :
+    ∃ A, Gen.env.pkg.aliases.find? (·.1 == a.name) = some (a.name, A) ∧ RoundTrips Gen.env Gen.bad A j :=
+  {pid}_checked.roundtrip_alias (List.all_eq_true.mp Sh_link_aliases a ha) hv hw
+/-- the hypotheses are satisfiable (kernel evaluation, a test): a concrete Range is closed-valid with distinct keys -/
+example : ((Gen.M.findStruct n!"Range").map (fun s => validStructC Gen.M s (.obj [(n!"start", .obj [(n!"line", .int 1), (n!"character", .int 2)]), (n!"end", .obj [(n!"line", .int 3), (n!"character", .int 4)])])
+            && Json.wfF 8 (.obj [(n!"start", .obj [(n!"line", .int 1), (n!"character", .int 2)]), (n!"end", .obj [(n!"line", .int 3), (n!"character", .int 4)])]))) = some true := by decide +kernel
 theorem {pid}_metamodel_notifications (nt : Notification) (hn : nt ∈ Gen.M.notifications) (j : Json) (hv : validNotificationC Gen.M nt j = true) (hw : Wf j) :
     ∃ e, entryOf Gen.env nt.method = some e ∧ RoundTrips Gen.env Gen.bad (.cls e.req) j :=
   {pid}_checked.roundtrip_notification (List.all_eq_true.mp Sh_link_notifications nt hn) hv hw
@@ -307,6 +316,7 @@ theorem {pid}_metamodel_responses (r : Request) (hr : r ∈ Gen.M.requests) (hx 
 #print axioms {pid}_metamodel_structures
 #print axioms {pid}_metamodel_requests
 #print axioms {pid}_metamodel_notifications
+#print axioms {pid}_metamodel_aliases
 #print axioms {pid}_metamodel_responses
 #print axioms {pid}_T1_progs
 #print axioms {pid}_T1_excluded_are_rejected
@@ -321,7 +331,7 @@ theorem {pid}_metamodel_responses (r : Request) (hr : r ∈ Gen.M.requests) (hx 
     names = [f"{pid}_T1_progs", f"{pid}_T1_excluded_are_rejected", f"{pid}_T1_classes", f"{pid}_structure_total", f"{pid}_T1_roots",
              f"{pid}_T2_classes", f"{pid}_unstructure_total", f"{pid}_roundtrip", f"{pid}_constructor_path",
              f"{pid}_checked", f"{pid}_metamodel_type", f"{pid}_metamodel_constructor", f"{pid}_metamodel_structures", f"{pid}_metamodel_requests",
-             f"{pid}_metamodel_notifications", f"{pid}_metamodel_responses"]
+             f"{pid}_metamodel_notifications", f"{pid}_metamodel_responses", f"{pid}_metamodel_aliases"]
     return [[genbad], [genlink], layer + [progs] + llayer + [linkmsgs], [(f"{pid}T1", final)]], names
 
 
